@@ -17,7 +17,7 @@ EXPLANATION = (
     "protect; non-empty arguments quoted per segment; optional leading / trailing whitespace). The product is explored "
     "exhaustively, which decides the round-trip law for inputs of ANY length; a disagreement is reported with the "
     "shortest class string reaching it. (D2) which(): explicit path first, PATH from the env argument when given and "
-    "from os.environ only when it is None, os.defpath when empty, first executable in split order, None otherwise; "
+    "from os.environ only when it is None, os.defpath when empty -- decided by evaluating which() symbolically up to the split over every combination of {no env, env with PATH, empty PATH, no PATH, empty env} x {parent has PATH, has none} --, first executable in split order, None otherwise; "
     "_spawn resolves with env=self.env. (D3) constructor settings cwd/env/echo/preexec_fn/dimensions reach the "
     "PtyProcess.spawn (resp. subprocess.Popen) keyword of the same name; argv is the split list with the resolved "
     "command first; the ignore_sighup wrapper sets SIG_IGN for SIGHUP and then calls the user's preexec_fn. NOT "
